@@ -759,3 +759,11 @@ def fx_keylimit(fx):
     no = sibling.key_length_limits(c, fx, "src/lib.rs", only=lambda fid: "keylimfx::ok::" in fid)
     return nb == 3 and no == 3 and _fires(c, "keylimfx::bad::contains") and not _fires(c, "keylimfx::ok::") and \
         not _fires(c, "keylimfx::bad::insert")
+
+
+def fx_countrmw(fx):
+    from rules import sync
+    c = _ctx()
+    nb = sync.counter_only_rmw(c, fx, "src/lib.rs", "countfx::BadMgr", ["writers"], only=lambda fid: "countfx::BadMgr" in fid)
+    no = sync.counter_only_rmw(c, fx, "src/lib.rs", "countfx::OkMgr", ["writers"], only=lambda fid: "countfx::OkMgr" in fid)
+    return nb == 2 and no == 2 and _fires(c, "BadMgr::bad_release") and not _fires(c, "BadMgr::new") and not _fires(c, "countfx::OkMgr")
